@@ -94,3 +94,35 @@ package actionlint
 //@ func absPath
 //@   ensures result == abspath(path)
 //@   trusted filepath.Abs is a function of the path while the working directory is fixed during a run
+
+// C20: which shell a `run:` script is written for: the step's own shell, else the job default, else the
+// workflow default, else the runner's default (pwsh on Windows runners), else bash; a step is handed to
+// the external linters iff it has a script
+//@ func (*RuleShellcheck).getShellName
+//@   props C20
+//@   ensures exec.Shell != nil ==> result == exec.Shell.Value
+//@   ensures exec.Shell == nil && rule.jobShell != "" ==> result == rule.jobShell
+//@   ensures exec.Shell == nil && rule.jobShell == "" && rule.workflowShell != "" ==> result == rule.workflowShell
+//@   ensures exec.Shell == nil && rule.jobShell == "" && rule.workflowShell == "" && rule.runnerShell != "" ==> result == rule.runnerShell
+//@   ensures exec.Shell == nil && rule.jobShell == "" && rule.workflowShell == "" && rule.runnerShell == "" ==> result == "bash"
+//@ func (*RuleShellcheck).VisitStep
+//@   props C20
+//@   body_calls (*RuleShellcheck).runShellcheck iff istype(n.Exec, "*ExecRun") && dyn(n.Exec, "*ExecRun").Run != nil
+//@   at_call (*RuleShellcheck).runShellcheck: src == run.Run.Value && pos == run.RunPos
+//@ func (*RulePyflakes).VisitStep
+//@   props C20
+//@   at_call (*RulePyflakes).runPyflakes: src == run.Run.Value && pos == run.RunPos
+//@ func (*RulePyflakes).isPythonShell
+//@   props C20
+//@   ensures rule.jobShellIsPython == old(rule.jobShellIsPython) && rule.workflowShellIsPython == old(rule.workflowShellIsPython)
+//@ func (*RuleShellcheck).runShellcheck
+//@   props C20
+//@   body_calls (*cmdExecution).run iff false
+//@   at_call sanitizeExpressionsInScript: src == src0
+//@ func (*RuleShellcheck).VisitJobPre
+//@   props C20 C09
+//@   ensures (n.Defaults != nil && n.Defaults.Run != nil && n.Defaults.Run.Shell != nil) ==> rule.jobShell == n.Defaults.Run.Shell.Value
+//@   ensures !(n.Defaults != nil && n.Defaults.Run != nil && n.Defaults.Run.Shell != nil) ==> rule.jobShell == old(rule.jobShell)
+//@ func (*RuleShellcheck).VisitWorkflowPre
+//@   props C20 C09
+//@   ensures (n.Defaults != nil && n.Defaults.Run != nil && n.Defaults.Run.Shell != nil) ==> rule.workflowShell == n.Defaults.Run.Shell.Value
